@@ -7,6 +7,7 @@ require (
 	github.com/hashicorp/go-hclog v1.6.2
 	github.com/hashicorp/go-kms-wrapping/v2 v2.0.16
 	github.com/hashicorp/nodeenrollment v0.0.0
+	github.com/mr-tron/base58 v1.2.0
 	google.golang.org/protobuf v1.33.0
 )
 
@@ -17,7 +18,6 @@ require (
 	github.com/hashicorp/go-uuid v1.0.3 // indirect
 	github.com/mattn/go-colorable v0.1.12 // indirect
 	github.com/mattn/go-isatty v0.0.14 // indirect
-	github.com/mr-tron/base58 v1.2.0 // indirect
 	github.com/pmezard/go-difflib v1.0.0 // indirect
 	github.com/sethvargo/go-diceware v0.3.0 // indirect
 	github.com/stretchr/testify v1.8.4 // indirect
